@@ -462,3 +462,54 @@ Proof.
   - inversion H; subst. intros Hin. apply H2. eapply firstn_in. exact Hin.
   - inversion H; subst. now apply IH.
 Qed.
+
+(* ---------- non-vacuity: a generator meeting the contracts, and what the samplers compute with it ---------- *)
+Lemma int_samplers_example :
+  let chnr := fun (c k s : nat) => seq 0 s in
+  let shuf1 := fun (c : nat) (l : list nat) => rev l in
+  let chu := fun (c k m : nat) => repeat (k - 1) m in
+  (forall c k s, s <= k -> length (chnr c k s) = s /\ NoDup (chnr c k s) /\ Forall (fun x => x < k) (chnr c k s)) /\
+  (forall c l, Permutation l (shuf1 c l)) /\
+  (forall c k m, 1 <= k -> length (chu c k m) = m /\ Forall (fun x => x < k) (chu c k m)) /\
+  sample_lhs chnr shuf1 0 [2; 3] 5 = [[0; 1]; [1; 0]; [1; 2]; [0; 1]; [0; 0]] /\
+  sample_tt chnr shuf1 [2; 3; 2] 2 =
+    ([[0; 1; 1]; [0; 0; 0]; [1; 1; 1]; [1; 0; 0];
+      [1; 0; 1]; [1; 0; 0]; [0; 0; 1]; [0; 0; 0]; [1; 1; 1]; [1; 1; 0]; [0; 1; 1]; [0; 1; 0];
+      [1; 2; 1]; [1; 2; 0]; [0; 2; 1]; [0; 2; 0];
+      [1; 1; 0]; [0; 0; 0]; [1; 1; 1]; [0; 0; 1]], [0; 4; 16; 20], [2; 2; 1]) /\
+  sample_rand chu [2; 3] 2 = Ok [[1; 2]; [1; 2]].
+Proof.
+  cbv zeta. split; [|split; [|split]].
+  - intros c k s Hs. split; [apply seq_length|]. split; [apply seq_NoDup|].
+    apply Forall_forall. intros x Hx. apply in_seq in Hx. lia.
+  - intros c l. apply Permutation_rev.
+  - intros c k m Hk. split; [apply repeat_length|]. apply Forall_forall. intros x Hx.
+    apply repeat_spec in Hx. lia.
+  - repeat split; vm_compute; reflexivity.
+Qed.
+
+(* ---------- sample_rand_poi: shape [m, d]; entry (j, i) is a value uniform(a_i, b_i) returned ---------- *)
+Section PoiP.
+Context {T : Type} (K : ops T).
+Variable unif : nat -> T -> T -> nat -> list T.
+Variable inside : T -> T -> T -> Prop.      (* inside lo hi x: what rand.uniform(lo, hi) promises about x *)
+Hypothesis Hunif : forall c lo hi m, length (unif c lo hi m) = m /\ Forall (inside lo hi) (unif c lo hi m).
+Theorem sample_rand_poi_shape a b m : length a = length b ->
+  match sample_rand_poi K unif a b m with
+  | Ok X => a <> [] /\ length X = m /\
+            forall j, j < m -> length (nth j X []) = length a /\
+              forall i, i < length a -> inside (nth i a (o0 K)) (nth i b (o0 K)) (nth i (nth j X []) (o0 K))
+  | Err e => a = [] /\ e = ValueError
+  end.
+Proof.
+  intros L. unfold sample_rand_poi. destruct a as [|a0 a']; [auto|]. set (a := a0 :: a') in *.
+  split; [discriminate|]. split; [apply transpose_length|]. intros j Hj.
+  assert (Lc : length (combine a b) = length a) by (rewrite combine_length; lia).
+  split; [rewrite transpose_row_length by auto; now rewrite mapi_from_length|].
+  intros i Hi. rewrite transpose_entry by (auto; now rewrite mapi_from_length, Lc).
+  rewrite (mapi_from_nth (fun c ab => unif c (fst ab) (snd ab) m) (combine a b) [] (o0 K, o0 K)) by lia.
+  rewrite combine_nth by auto. cbn [fst snd].
+  destruct (Hunif (0 + i) (nth i a (o0 K)) (nth i b (o0 K)) m) as [Lu Fu].
+  rewrite Forall_forall in Fu. apply Fu. apply nth_In. lia.
+Qed.
+End PoiP.
